@@ -167,23 +167,43 @@ def scan_enums(repo):
 
 
 def scan_str_consts(repo):
+    """{'NAME': value-or-None-if-ambiguous, 'mod::path::NAME': value}: &str and small integer consts."""
     import os
     consts = {}
-    for root, _d, names in os.walk(os.path.join(repo, "src")):
+    base = os.path.join(repo, "src")
+    for root, _d, names in os.walk(base):
         for n in names:
             if not n.endswith(".rs"):
                 continue
+            rel = os.path.relpath(os.path.join(root, n), base)[:-3]
+            mod = "::".join(x for x in rel.split(os.sep) if x not in ("mod", "lib"))
             txt = open(os.path.join(root, n), encoding="utf-8").read()
+            found = []
             for m in re.finditer(r"\bconst\s+([A-Z_][A-Z0-9_]*)\s*:\s*&(?:'static\s+)?str\s*=\s*\"((?:[^\"\\]|\\.)*)\"", txt):
-                k = m.group(1)
-                v = bytes(m.group(2), "utf-8").decode("unicode_escape")
+                found.append((m.group(1), bytes(m.group(2), "utf-8").decode("unicode_escape")))
+            for m in re.finditer(r"\bconst\s+([A-Z_][A-Z0-9_]*)\s*:\s*(usize|i32|u32|i64|u64)\s*=\s*(\d+)\s*;", txt):
+                found.append((m.group(1), (m.group(2), int(m.group(3)))))
+            for k, v in found:
+                consts[mod + "::" + k] = v
                 if k in consts and consts[k] != v:
                     consts[k] = None
                 else:
                     consts[k] = v
-            for m in re.finditer(r"\bconst\s+([A-Z_][A-Z0-9_]*)\s*:\s*(usize|i32|u32|i64|u64)\s*=\s*(\d+)\s*;", txt):
-                consts[m.group(1)] = (m.group(2), int(m.group(3)))
     return consts
+
+
+def lookup_const(consts, path):
+    """Resolve a const path as printed in MIR (possibly shortened) against the scanned table."""
+    segs = path.split("::")
+    name = segs[-1]
+    if not re.fullmatch(r"[A-Z_][A-Z0-9_]*", name):
+        return None
+    for i in range(len(segs) - 1):
+        k = "::".join(segs[i:])
+        cands = [v for kk, v in consts.items() if kk == k or kk.endswith("::" + k)]
+        if cands and all(c == cands[0] for c in cands):
+            return cands[0]
+    return consts.get(name)
 
 
 class AxiomList(list):
@@ -660,9 +680,8 @@ class Exec:
             if fn is None:
                 raise Unsupported("promoted const not found: " + t)
             return ("promoted", fn)
-        last = t.split("::")[-1]
-        if re.fullmatch(r"[A-Z_][A-Z0-9_]*", last) and last in self.consts and self.consts[last] is not None:
-            c = self.consts[last]
+        c = lookup_const(self.consts, t)
+        if c is not None:
             if isinstance(c, tuple):
                 return z3.BitVecVal(c[1], INT_W[c[0]])
             return StrC(c)
@@ -1782,6 +1801,11 @@ STD_MODELS = [
     (r"^<.* as AsRef<.*>>::as_ref$", m_identity),
     (r"^<.* as (Borrow|BorrowMut)<.*>>::borrow(_mut)?$", m_identity),
     (r"^<Box<.*> as From<.*>>::from$", m_identity),
+    (r"^<std::string::String as From<&(mut )?(str|std::string::String)>>::from$", m_identity),
+    (r"^<str as ToString>::to_string$", m_identity),
+    (r"^<str as ToOwned>::to_owned$", m_identity),
+    (r"^<std::string::String as ToString>::to_string$", m_identity),
+    (r"^std::string::String::as_str$", m_identity),
     (r"^Box::<.*>::new$", m_identity),
     (r"^std::cmp::(max|min)::<", m_max),
     (r"^(Option|Result)::<.*>::(is_some|is_none|is_ok|is_err)$", m_is_some),
